@@ -327,14 +327,25 @@ def obj_dup(n):
     return st
 
 
-def pattern_dup(n, how):
+def pattern_dup(n, how, where="decl"):
     names = ["v%d" % j for j in range(n)]
     rep_at = {"last": n - 1, "first": 0, "mid": n // 2}[how] if n else 0
     if n == 0:
         return [pr(S("before")), A.Declare(A.lst(V("x"), V("x")), A.lst(I(1), I(2))), pr(S("WRONG"))]
-    pat = A.lst(*([V(v) for v in names] + [V(names[rep_at])]))
-    src = A.lst(*[I(j) for j in range(n + 1)])
-    return [pr(S("before")), A.Declare(pat, src), pr(S("WRONG"))]
+    pat = lambda: A.lst(*([V(v) for v in names] + [V(names[rep_at])]))
+    src = lambda: A.lst(*[I(j) for j in range(n + 1)])
+    if where == "assign":
+        return [A.Declare(V(v), A.Null()) for v in names] + [pr(S("before")), A.Assign(pat(), src()), pr(S("WRONG"))]
+    if where == "for":
+        return [pr(S("before")), A.For(A.lst(V("_"), pat()), A.lst(src()), [pr(S("WRONG"))]), pr(S("WRONG"))]
+    if where == "param":
+        return [pr(S("before")), A.FuncStmt("f", [pat()], False, [pr(S("WRONG"))]), A.ExprStmt(A.call("f", src())), pr(S("WRONG"))]
+    if where == "params":
+        return [pr(S("before")), A.FuncStmt("f", [V(v) for v in names] + [V(names[rep_at])], False, [pr(S("WRONG"))]), A.ExprStmt(A.Call(V("f"), [(src(), True)])), pr(S("WRONG"))]
+    if where == "object":
+        opat = A.ObjectE([A.Pair(S(key(j)), V(names[j])) for j in range(n)] + [A.Pair(S(key(n)), V(names[rep_at]))])
+        return [A.Declare(V(v), A.Null()) for v in names] + [pr(S("before")), A.Assign(opat, A.obj(*[(key(j), I(j)) for j in range(n + 1)])), pr(S("WRONG"))]
+    return [pr(S("before")), A.Declare(pat(), src()), pr(S("WRONG"))]
 
 
 def interp_len(n):
@@ -369,6 +380,47 @@ def range_twice(n):
         [A.FuncStmt("mk", [], False, [A.Return(A.Range(I(3), I(3 + n)))]), A.Declare(V("m1"), A.call("mk")), A.Declare(V("m2"), A.call("mk")), pr(A.Bin("===", V("m1"), V("m2")))] + counted("m1", V("m1"))
 
 
+SLOT_TEXTS = ["", " ", "   ", "\t", "1 +", ")", "x y", "+", "fn", "1 1", "a :=", ".", ",", "x..", ":", "(", "[1", "é", "1 +é", "#", ";", "x;", "&"]
+
+
+def slot_parse_errors(_n, text, where):
+    """an interpolation slot whose text is not an expression: a located diagnostic when (and only when) it is evaluated"""
+    bad = lambda: A.IStr(["é", A.RawSlot(text), " tail"])
+    if where == "top":
+        return [pr(S("before")), pr(bad()), pr(S("WRONG"))]
+    if where == "fn":
+        return [A.FuncStmt("f", [V("q")], False, [pr(S("in f")), A.Return(bad())]), pr(S("before")), pr(A.call("f", I(1))), pr(S("WRONG"))]
+    if where == "second":
+        return [A.Declare(V("c"), I(0)), A.FuncStmt("t", [], False, [A.OpAssign("+", V("c"), I(1)), pr(S("first slot ran")), A.Return(S("x"))]), pr(S("before")),
+                pr(A.IStr(["<", A.call("t"), "|", A.RawSlot(text), ">"])), pr(S("WRONG"))]
+    # never evaluated: no diagnostic
+    return [A.FuncStmt("f", [], False, [A.Return(bad())]), A.If([(A.Bool(False), [pr(bad())])], None), pr(S("never evaluated"))]
+
+
+def istr_keys(_n):
+    """an interpolated string wherever a key is computed: literal entries, patterns, index reads and writes"""
+    k = lambda: A.IStr(["k_", V("n")])
+    return [A.Declare(V("n"), S("7")), A.Declare(V("o"), A.ObjectE([A.Pair(k(), I(1)), A.Pair(S("plain"), I(2)), A.Pair(A.IStr(["k_", V("n"), V("n")]), I(3))])), pr(V("o")),
+            pr(A.Index(V("o"), k())), A.Assign(A.Index(V("o"), k()), I(5)), A.OpAssign("+", A.Index(V("o"), k()), I(10)), pr(A.Index(V("o"), S("k_7"))),
+            A.Declare(A.ObjectE([A.Pair(k(), V("got")), A.Single(V("others"), False, True)]), V("o")), pr(V("got")), pr(V("others")),
+            A.Assign(V("n"), S("8")), A.Assign(A.Index(V("o"), k()), S("new")), pr(V("o")), pr(A.Index(A.obj(("k_8", S("lit"))), k())),
+            A.Declare(V("xs"), A.lst(I(10), I(20))), pr(A.Index(V("xs"), A.Call(A.Prop(A.IStr([V("n")]), "len", True), []))),
+            pr(A.Bin("==", A.ObjectE([A.Pair(k(), I(1))]), A.obj(("k_8", I(1))))), pr(S("missing next")), pr(A.Index(V("o"), A.IStr(["k_", V("n"), "!"]))), pr(S("WRONG"))]
+
+
+def self_targets(_n):
+    """destructuring whose targets are slots of the very container being destructured (swap idioms)"""
+    return [A.Declare(V("xs"), A.lst(I(1), I(2), I(3))), A.Assign(A.lst(A.Index(V("xs"), I(1)), A.Index(V("xs"), I(0)), V("_")), V("xs")), pr(V("xs")),
+            A.Declare(V("p"), A.obj(("x", I(1)), ("y", I(2)))), A.Assign(A.ObjectE([A.Pair(S("x"), A.Prop(V("p"), "y", False)), A.Pair(S("y"), A.Prop(V("p"), "x", False))]), V("p")), pr(V("p")),
+            A.Assign(A.ObjectE([A.Pair(S("x"), A.Index(V("p"), S("z"))), A.Single(V("_"), False, True)]), V("p")), pr(V("p")),
+            A.Declare(V("a"), I(1)), A.Declare(V("b"), I(2)), A.Assign(A.lst(V("a"), V("b")), A.lst(V("b"), V("a"))), pr(A.lst(V("a"), V("b"))),
+            A.Declare(V("ys"), A.lst(A.lst(I(1)), A.lst(I(2)))), A.Assign(A.lst(A.Index(A.Index(V("ys"), I(1)), I(0)), A.Index(A.Index(V("ys"), I(0)), I(0))), A.lst(A.Index(V("ys"), I(0)), A.Index(V("ys"), I(1)))), pr(S("built")),
+            A.Declare(V("q"), A.obj(("self", A.Null()))), A.Assign(A.Prop(V("q"), "self", False), V("q")), A.Assign(A.ObjectE([A.Pair(S("self"), A.Prop(V("q"), "other", False))]), V("q")),
+            pr(A.Bin("===", A.Prop(V("q"), "other", False), V("q"))),
+            A.Assign(A.ListE([(A.Index(V("xs"), I(2)), False), (V("tail"), False)], True), V("xs")) if False else A.Declare(A.ListE([(V("h"), False), (V("tail"), False)], True), V("xs")), pr(V("tail")),
+            A.For(A.lst(V("i"), A.Index(V("xs"), I(0))), A.lst(I(7), I(8)), []), pr(V("xs"))]
+
+
 def elseif_dup(n):
     """several arms test the same literal: the first one that matches runs"""
     half = n // 2 + 1
@@ -396,6 +448,35 @@ def chain_error(n, kind):
     for x in ops[1:]:
         e = A.Bin("+", e, x)
     return [pr(S("before")), pr(e), pr(S("WRONG"))]
+
+
+def chain_assoc(n, shift):
+    """a `+` chain that is fine when summed from the left but overflows under any other grouping of neighbours"""
+    h = 2 ** 62
+    ops = ([0] * shift + [-h, -h, h, h] * (n // 4 + 2))[: n + 1]
+    e = I(ops[0])
+    for x in ops[1:]:
+        e = A.Bin("+", e, I(x))
+    s = S("a")
+    for j in range(n):
+        s = A.Bin("+", s, S("abc"[j % 3]))
+    return [pr(e), pr(s), A.Declare(V("r"), A.clone(e)), pr(V("r"))]
+
+
+def chain_mixed(n, tier):
+    """a long chain over all operators of one tier: evaluated strictly left to right"""
+    rng = random.Random(n * 7 + tier)
+    opsets = {3: ["+", "-"], 4: ["*", "/", "%", "*", "/"], 2: ["&&", "||"]}[tier]
+    if tier == 2:
+        e = A.Bool(True)
+        for _ in range(n):
+            e = A.Bin(rng.choice(opsets), e, A.Bool(rng.random() < 0.5))
+        return [pr(e)]
+    e = I(rng.randrange(1, 10 ** 6))
+    for _ in range(n):
+        op = rng.choice(opsets)
+        e = A.Bin(op, e, I(rng.randrange(1, 50) if op != "*" else rng.randrange(1, 1000)))
+    return [pr(S("before")), pr(e), pr(S("after"))]
 
 
 def deep_parens(n):
@@ -663,9 +744,14 @@ ENTRIES = {
     "range_assign": ("C11 C05", range_assign, [("list",), ("str",)], 1025, {"err": True}),
     "huge_index": ("C11 C17 C18 C16 C06", huge_index, [(h, f) for h in HUGE for f in ("read", "read_var", "end", "start", "str", "str_end", "write", "range_write", "both")], 0, {"err": True}),
     "obj_dup": ("C12 C19", obj_dup, [()], 513, {}),
-    "pattern_dup": ("C13 C20", pattern_dup, [("last",), ("first",), ("mid",)], 300, {"err": True}),
+    "pattern_dup": ("C13 C20", pattern_dup, [("last",), ("first",), ("mid",), ("last", "assign"), ("mid", "assign"), ("last", "for"), ("last", "param"), ("last", "params"), ("last", "object")], 300, {"err": True}),
+    "chain_assoc": ("C08 C06", chain_assoc, [(0,), (1,), (2,), (3,)], 140, {"err": None}),
+    "chain_mixed": ("C08 C06 C16", chain_mixed, [(3,), (4,), (2,)], 140, {"err": None}),
     "interp_len": ("C15 C03 C02", interp_len, [()], -1, {"err": True}),
-    "name_coincidence": ("C20 C04", name_coincidence, [()], 0, {}),
+    "slot_parse_errors": ("C15 C17 C02 C18 C03", slot_parse_errors, [(t, w) for t in SLOT_TEXTS for w in ("top", "fn", "second", "never")], 0, {"err": None}),
+    "istr_keys": ("C12 C15 C13 C16", istr_keys, [()], 0, {"err": True}),
+    "self_targets": ("C13 C02 C05 C12 C11", self_targets, [()], 0, {}),
+    "name_coincidence": ("C20 C04 C12 C14", name_coincidence, [()], 0, {}),
     "big_text_interp": ("C15 C03", big_text, [(c, ph, "interp") for c in ("é", "😀", "a") for ph in (0, 1)], -70000, {"err": True}),
     "chain_error": ("C08 C16 C18 C06 C17", chain_error, [("type_mid",), ("type_last",), ("type_first",), ("overflow_first",), ("overflow_last",)], 129, {"err": True}),
     "deep_parens": ("C08 C03 C07 C04", deep_parens, [()], 257, {"model_kw": {"max_nest": 600}}),
